@@ -46,7 +46,16 @@ def forms(tier):
                 lambda o: ([str(o[0]), str(o[1]), str(o[2])], {"qubit[] r": {"%d%d%d" % (o[1], o[2], o[0]): 1}})))
     out.append(("anticorr", "function main() -> void { qubit a; qubit b; h(a); cx(a, b); x(b); bit x1 = measure a; bit y1 = measure b; echo(x1); echo(y1); }",
                 lambda o: ([str(o[0]), str(o[1])], {})))
-    return out
+    # every form again with other qubits allocated first, so that array positions, declaration order and simulator
+    # indices do not coincide (a register is rarely the first allocation in real programs)
+    padded = []
+    for name, src, expect in out:
+        padded.append((name, src, expect))
+        for pn, pad in (("pad1", "qubit p0; "), ("pad3", "qubit p0; qubit[2] p1; ")):
+            if tier != "thorough" and pn == "pad3" and not name.startswith(("array", "elems", "ghz", "bell", "stmt:plus", "method:plus")):
+                continue
+            padded.append((name + "+" + pn, src.replace("function main() -> void { ", "function main() -> void { " + pad, 1), expect))
+    return padded
 
 
 def _one(item):
